@@ -11,12 +11,14 @@ MAX_VALUE_MSAT = 21_000_000 * 100_000_000 * 1000
 EVIDENCE = dict(assumptions=[
     'kernel only: inbound_payment::{construct_info_bytes, verify (metadata-free path), calculate_absolute_expiry, min_final_cltv_expiry_delta_from_info, Method::from_bits}',
     'cryptography is abstracted: decrypt_info returns the info bytes that were packed (ChaCha20 involution), the HMAC comparison and the LDK preimage derivation are arbitrary booleans; unforgeability of payment secrets is NOT claimed',
-    'MPP accumulation and ordering, all-or-nothing claiming, crediting of balances and payment metadata are outside the claim'])
+    'C04.f: claim_payment_internal from its entry to the start of the claim path (region cut); begin_claiming_payment, locks and maps stubbed; <= 2 parts',
+    'MPP accumulation and ordering, what happens after the claim path starts (per-part claims, monitor updates), crediting of balances and payment metadata are outside the claim'])
 
 
 def run(S):
     D = S.decls()
     mpp_timeout(S, D)
+    all_or_nothing_claim(S, D)
     E = S.engine()
     mem = {}
     f_info = S.fn('construct_info_bytes', nargs=5)
@@ -160,3 +162,82 @@ def mpp_timeout(S, D):
             'every held part ages by exactly one tick per timer call', [b])
     S.no_panic('C04.e.nopanic', E, pre, 'no overflow', [b])
     S.witness('C04.e.witness', E, pre + [n == N], rv.t)
+
+
+def all_or_nothing_claim(S, D):
+    """C04.f: ChannelManager::claim_payment_internal - "if any part can no longer be claimed, none is". The function is
+    executed from its entry up to the point where it starts releasing the preimage (region cut at the block that
+    builds the MPP claim sources); the parts handed over by begin_claiming_payment are an arbitrary list of <= 2
+    parts. Stubs: begin_claiming_payment, the peer-state lock, the pending-claims map, the persistence guard."""
+    import re
+    ids = ['C04.f.claims_iff_complete', 'C04.f.refusal_cleans_up', 'C04.f.nopanic', 'C04.f.witness', 'C04.f.validate']
+    if all(S._skip(o) for o in ids):
+        return
+    NP = 2
+    f = S.fn('claim_payment_internal')
+    E = S.engine(unwind=NP + 2)
+    E.slice_cap = NP
+    mem = {}
+    args = [E.sym('a%d' % n, t, mem) if t.startswith('&') or t == 'bool' else X.Opaque('arg%d' % n) for n, t in f.params]
+    srcs = E.sym('sources', 'std::vec::Vec<ln::channelmanager::ClaimableHTLC>', mem)
+    begin_ok = z3.Bool('env.begin_ok')
+    removed = []
+    for rx, h in [
+        (r'PaymentPreimage as Into<.*PaymentHash>>::into$', lambda *a: X.Adt('PaymentHash', {}, base='the_hash')),
+        (r'PersistenceNotifierGuard::<.*>::notify_on_drop', lambda *a: X.Opaque('guard')),
+        (r'ClaimablePayments::begin_claiming_payment::<', lambda *a: X.En('Result', z3.If(begin_ok, 0, 1), {
+            0: [X.Tup([srcs, X.Adt('ClaimingPayment', {}, base='claiming')])], 1: [X.Seq([], 0, 'ClaimableHTLC')]})),
+        (r'FairRwLock::<.*>::read$', lambda *a: X.En('Result', 0, {0: [X.Opaque('peers')]})),
+        (r'Vec::<\(.*MsgHandleErrInternal\)>::new$', lambda *a: X.Seq([], 0, 'err')),
+        (r'HashMap::<.*ClaimingPayment.*>::remove::<', lambda E_, m, func, argv, guard, mem_, dty, caller: (removed.append(X.zbool(guard)), X.En('Option', 0, {}))[1]),
+    ]:
+        E.models.insert(0, (re.compile(rx), h))
+    run = X.FnRun(E, f, args, True, mem)
+    stops = {b for b, (body, term) in f.blocks.items() if term[0] == 'call' and re.search(r'filter_map::<(?:\w+::)*MPPClaimHTLCSource', str(term[2]))}
+    if len(stops) != 1:
+        raise X.Unsupported('start of the claim path not found in claim_payment_internal (%d candidates)' % len(stops))
+    E.depth += 1
+    rv, ret, m2 = run.run(stop_bbs=stops)
+    E.depth -= 1
+    st = run.stop_states.get(list(stops)[0], [])
+    proceeds = z3.Or(*[X.zbool(g) for g, _ in st]) if st else z3.BoolVal(False)
+    returns = X.zbool(ret) if ret is not False else z3.BoolVal(False)
+    CH, MP = D.struct_fields('ClaimableHTLC'), D.struct_fields('MppPart')
+    n = srcs.n
+
+    def part(i, nm, ty):
+        mp = E.read_path(srcs.elems[i], (('f', CH.index('mpp_part'), 'ln::channelmanager::MppPart'),), mem, True, 'spec')
+        return E.read_path(mp, (('f', MP.index(nm), ty),), mem, True, 'spec')
+    val = [part(i, 'value', 'u64').t for i in range(NP)]
+    rec = [part(i, 'total_value_received', 'Option<u64>') for i in range(NP)]
+    rec_some = [X.zint(r.d) == 1 for r in rec]
+    rec_v = [E.en_payload(r, 'Some', 1, 0, 'u64', mem, 'spec').t for r in rec]
+    total = sum([z3.If(n > i, val[i], 0) for i in range(NP)])
+    # invariants of a claimable payment: begin_claiming_payment hands over at least one part; every part carries the
+    # total that was recorded when the payment became claimable (check_incoming_mpp_part writes the same Some(total) into all)
+    pre = [z3.Implies(begin_ok, n >= 1)] + [z3.And(v >= 1, v <= 1 << 50) for v in val] + [z3.And(rec_some[i] == rec_some[0], rec_v[i] == rec_v[0]) for i in range(1, NP)]
+    # begin_claiming_payment records the sum of the parts it hands over as ClaimingPayment::amount_msat
+    CPF = D.struct_fields('ClaimingPayment')
+    pre.append(E.read_path(X.Adt('ClaimingPayment', {}, base='claiming'), (('f', CPF.index('amount_msat'), 'u64'),), mem, True, 'spec').t == total)
+    for p_ in pre:
+        E.assume(p_)            # state invariants: part of the encoding (also used by translator validation)
+    pre = []
+    complete = z3.And(begin_ok, rec_some[0], total == rec_v[0])
+    panic = z3.Or(*[X.zbool(p[0]) for p in E.panics]) if E.panics else False
+    cleanup = z3.Or(*removed) if removed else z3.BoolVal(False)
+    # live scenario: two 2.5M / 7.5M msat parts recorded with total 10M; either both still held or only the second
+    shape_full = z3.And(n == 2, rec_some[0], total == rec_v[0])
+    shape_lost = z3.And(n == 1, rec_some[0], total < rec_v[0])
+
+    def line_fn(v):
+        return '1' if v[1] else '0'
+    b = Binding('mpp_partial_claim_probe', [z3.If(shape_full, 1, 0), z3.If(shape_lost, 1, 0), z3.If(begin_ok, 1, 0)], [None, z3.If(proceeds, n, 0)],
+                line_fn=line_fn, which='oracle_tu', panic=panic, via_solver=True, domain=[(0, 1), (0, 1), (1, 1)])
+    S.prove(ids[0], E, pre, proceeds == complete,
+            'the preimage is released (claim path entered) iff the parts still held add up to exactly the total recorded when the payment became claimable: if a part was failed back in the meantime (its expiry came too close), nothing is claimed',
+            [b], bounds='<= %d parts, part values 1 .. 2^50 msat, recorded totals any u64; begin_claiming_payment and the maps stubbed; execution cut where the claim path starts' % NP)
+    S.prove(ids[1], E, pre + [begin_ok], z3.Implies(z3.Not(complete), z3.And(returns, cleanup)),
+            'a refused claim returns after removing the payment from the pending-claims map (no half-claimed state is left behind)', [b])
+    S.no_panic(ids[2], E, pre, 'no overflow in the sum of the parts; the internal consistency debug_assert holds under the stated invariant', [b])
+    S.witness(ids[3], E, pre + [shape_lost], returns)
+    S.validate(ids[4], E, b, n=2, extra_vectors=[(1, 0, 1), (0, 1, 1)])
